@@ -1040,6 +1040,18 @@ def rule_r5(chk, prog):
                 continue
             desc = describe_path(p)
             facts = set(p.facts)
+            # the popped node is bound once per iteration and is_leaf() is a
+            # pure test of it: a path that takes it both ways is infeasible
+            if any(t.endswith('.is_leaf()') and (t, not pol) in facts
+                   and t.split('.')[0].isidentifier()
+                   and sum(1 for n_ in p.nodes if n_.kind == 'stmt'
+                           and isinstance(n_.ast, ast.Assign) and any(
+                               isinstance(y, ast.Name)
+                               and y.id == t.split('.')[0]
+                               and isinstance(y.ctx, ast.Store)
+                               for y in ast.walk(n_.ast))) <= 1
+                   for (t, pol) in facts):
+                continue
             pops = [c for (i, n, c) in path_method_calls(p)
                     if c.func.attr in ('pop', 'popleft')]
             # roles: (depth, node) = <work>.pop()
